@@ -256,18 +256,8 @@ class Mirror:
                 if d != s and n in sp[d]["cells"] and sp[d]["cells"][n][1] \
                         and self.first_definer("cells", n, self.mro(d)[1:], sp2) == s:
                     t.append("D1"); break
-        if k == "SetFormula":
-            n = op[2]
-            for d in self.subs(s):
-                if d != s and self.first_definer("cells", n, self.mro(d)[1:], sp2) != s:
-                    t.append("D2"); break
-        if k == "ChangeRef":
-            n = op[2]
-            ds = [d for d in self.subs(s) if d != s]
-            stops = [d for d in ds if (not sp[d]["refs"][n][1]) or self.first_definer("refs", n, self.mro(d)[1:], sp2) != s]
-            needs = [d for d in ds if sp[d]["refs"][n][1] and self.first_definer("refs", n, self.mro(d)[1:], sp2) == s]
-            if stops and needs:
-                t.append("D33")
+        # D2 / D2b (SetFormula reaching cells derived from another definer) and D33 (ChangeRef stopping at the first
+        # overriding sub space) are repaired in /repo: their former triggers are generated
         if k in ("RemoveBases", "DelSpace") and self._d3(op, g2):
             t.append("D3")
         return t
